@@ -107,6 +107,13 @@ def build_records(tier, rng):
     from mysensors import const_22
     D, E, C = [], [], []
     texts = []
+    # the codec is the same whether or not a message knows its gateway (Gateway.logic decodes with the gateway attached,
+    # copy() hands it on): half of all messages get one
+    import mysensors
+    gws = [mysensors.Gateway(protocol_version=v) for v in ("1.4", "2.0", "2.2")]
+
+    def some_gw():
+        return rng.choice(gws) if rng.random() < 0.5 else None
     for line in case_lines(tier, rng):
         # TLC integers are 32 bit: fields with more than 9 digits are not representable in the specification
         if any(sum(1 for ch in f if ch in "0123456789u") > 9 for f in "".join(x if x != "s" else ";" for x in line).split(";")):
@@ -114,7 +121,7 @@ def build_records(tier, rng):
         conc = Conc(rng)
         text = conc.text(line)
         try:
-            m = Message(text)
+            m = Message(text, some_gw())
             h = [m.node_id, m.child_id, m.type, m.ack, m.sub_type]
             if any(abs(x) > 2 ** 31 - 1 for x in h):
                 continue
@@ -142,14 +149,14 @@ def build_records(tier, rng):
                 objs[k] = str(hv[k])          # int() accepts the decimal spelling too
         pl = rng.choice(PL + [[rng.choice(["a", "c", "b", "1", "u", "_", "-", "r"]) for _ in range(rng.randint(0, 6))]])
         ptxt = conc.text(pl)
-        m = Message(node_id=objs[0], child_id=objs[1], type=objs[2], ack=objs[3], sub_type=objs[4], payload=ptxt)
+        m = Message(None, some_gw(), node_id=objs[0], child_id=objs[1], type=objs[2], ack=objs[3], sub_type=objs[4], payload=ptxt)
         try:
             enc = m.encode()
             ok = 1 if isinstance(enc, str) else 0
             rd_ok, rd_h, rd_p = 0, [], []
             if ok:
                 try:
-                    m2 = Message(enc)
+                    m2 = Message(enc, some_gw())
                     rd_ok, rd_h, rd_p = 1, [m2.node_id, m2.child_id, m2.type, m2.ack, m2.sub_type], conc.syms(m2.payload)
                 except ValueError:
                     rd_ok = 0
@@ -163,7 +170,7 @@ def build_records(tier, rng):
         conc = Conc(rng)
         hv = [rng.choice(IVALS) for _ in range(5)]
         pl = rng.choice(carri)
-        m = Message(node_id=hv[0], child_id=hv[1], type=hv[2], ack=hv[3], sub_type=hv[4], payload=conc.text(pl))
+        m = Message(None, some_gw(), node_id=hv[0], child_id=hv[1], type=hv[2], ack=hv[3], sub_type=hv[4], payload=conc.text(pl))
         subset = [i for i in range(1, 7) if (k >> (i - 1)) & 1] if k < 64 else [i for i in range(1, 7) if rng.random() < 0.4]
         vals, kw = [], {}
         for i in subset:
